@@ -158,3 +158,97 @@ theorem lookup_isSome_iff (k : String) : ∀ l : List (String × V),
       · simp [hk, lookup_isSome_iff k kvs]
 
 end Pyg.DA
+
+/-! ### round h2 (review s2): in-place list operations against the plain list operation; key order of successive assignments -/
+namespace Pyg.USet
+variable {α : Type} [DecidableEq α]
+
+omit [DecidableEq α] in
+theorem nodup_set_fresh (u : List α) (i : Nat) (x : α) (hu : u.Nodup) (hx : x ∉ u) : (u.set i x).Nodup := by
+  induction u generalizing i with
+  | nil => simp
+  | cons a u ih =>
+    cases i with
+    | zero =>
+      simp only [List.set_cons_zero, List.nodup_cons] at hu ⊢
+      exact ⟨fun h => hx (List.mem_cons_of_mem _ h), hu.2⟩
+    | succ i =>
+      simp only [List.set_cons_succ, List.nodup_cons] at hu ⊢
+      refine ⟨fun h => ?_, ih i hu.2 (fun h => hx (List.mem_cons_of_mem _ h))⟩
+      rcases List.mem_or_eq_of_mem_set h with h | h
+      · exact hu.1 h
+      · exact hx (by simp [h])
+
+omit [DecidableEq α] in
+theorem nodup_insertAt_fresh (u : List α) (i : Nat) (x : α) (hu : u.Nodup) (hx : x ∉ u) : (insertAt u i x).Nodup := by
+  unfold insertAt
+  have h := List.take_append_drop i u
+  rw [← h] at hu hx
+  rw [List.nodup_append] at hu ⊢
+  simp only [List.mem_append, not_or] at hx
+  refine ⟨hu.1, List.nodup_cons.2 ⟨hx.2, hu.2.1⟩, ?_⟩
+  intro a ha b hb
+  rcases List.mem_cons.1 hb with rfl | hb
+  · intro e; subst e; exact hx.1 ha
+  · exact hu.2.2 a ha b hb
+
+/-- the plain python list operation behind an in-place ulist operation (independent reference) -/
+def listOp (u : List α) : Op α → Option (List α)
+  | .append _ x => some (u ++ [x])
+  | .extend _ xs => some (u ++ xs)
+  | .iadd _ xs => some (u ++ xs)
+  | .insert _ i x => some (u.take i ++ x :: u.drop i)
+  | .setI _ i x => if i < u.length then some (u.set i x) else none
+  | .imul _ n => some ((List.replicate n u).flatten)
+  | _ => none
+
+omit [DecidableEq α] in
+theorem repeatN_eq (u : List α) (n : Nat) : repeatN u n = (List.replicate n u).flatten := by
+  induction n with
+  | zero => rfl
+  | succ n ih => simp [repeatN, ih, List.replicate_succ]
+
+
+end Pyg.USet
+
+namespace Pyg.DA
+open Pyg.USet
+variable {V : Type}
+
+theorem mk_mk_append (xs ys : List String) : mk (mk xs ++ ys) = mk (xs ++ ys) := by
+  rw [mk_append, mk_append, mk_idem]
+  congr 1
+  apply List.filter_congr
+  intro y _
+  simp [mem_mk]
+
+theorem keys_set (k : String) (v : V) (l : List (String × V)) (hn : (l.map (·.1)).Nodup) :
+    (set k v l).map (·.1) = mk (l.map (·.1) ++ [k]) := by
+  by_cases hk : k ∈ l.map (·.1)
+  · rw [map_fst_set_of_mem k v l hk, mk_append, mk_of_nodup _ hn]
+    simp [mk, hk]
+  · rw [set_of_not_mem k v l hk, mk_append, mk_of_nodup _ hn]
+    simp [mk, hk]
+
+/-- key ORDER of successive item assignments: the keys of the base in their order, then the new keys in the order of their
+first assignment -/
+theorem keys_setAll : ∀ (pairs base : List (String × V)), (base.map (·.1)).Nodup →
+    (setAll base pairs).map (·.1) = mk (base.map (·.1) ++ pairs.map (·.1))
+  | [], base, hn => by simp [setAll, mk_of_nodup _ hn]
+  | p :: ps, base, hn => by
+      have e : setAll base (p :: ps) = setAll (set p.1 p.2 base) ps := by simp [setAll]
+      have hn' : ((set p.1 p.2 base).map (·.1)).Nodup := by rw [keys_set _ _ _ hn]; exact mk_nodup _
+      rw [e, keys_setAll ps _ hn', keys_set _ _ _ hn, mk_mk_append]
+      simp
+
+theorem mapM_congr_res {α β : Type} (f g : α → Res β) : ∀ (xs : List α), (∀ x ∈ xs, f x = g x) → xs.mapM f = xs.mapM g
+  | [], _ => rfl
+  | x :: xs, h => by
+    simp only [List.mapM_cons, h x (by simp), mapM_congr_res f g xs (fun y hy => h y (List.mem_cons_of_mem _ hy))]
+
+
+theorem map_fst_set_mem (k : String) (v : V) (kvs : List (String × V)) (w : V) (h : lookup k kvs = some w) :
+    (set k v kvs).map (·.1) = kvs.map (·.1) :=
+  map_fst_set_of_mem k v kvs ((lookup_isSome_iff k kvs).1 (by simp [h]))
+
+end Pyg.DA
